@@ -7,8 +7,10 @@ from .. import core, build, trace
 def make_spec(rng, n, runs, prefix):
     lines = []
     for i in range(runs):
-        kind = ["instant", "instant", "rendezvous", "rendezvous", "slow"][i % 5]
-        if kind == "instant":
+        kind = ["instant", "instant", "rendezvous", "rendezvous", "slow", "panicky", "rendezvous"][i % 7]
+        if kind == "panicky":
+            t = rng.choice([1, 12, 12, 3 * n + 12])
+        elif kind == "instant":
             t = rng.range(0, 4 * n)
         elif kind == "rendezvous":
             t = rng.range(max(1, n - 1), 4 * n) if i % 3 else n
@@ -82,6 +84,8 @@ def native(c, lane, total_runs, jobs=8):
                     c.seen("a rendezvous of N")
                 if s.kind == "slow":
                     c.seen("a slow-task run")
+                if s.kind == "panicky" and s.submitted >= 12:
+                    c.seen("a run of tasks that panic with every payload kind")
                 if len(c.samples) < 4 and s.kind != "instant" and s.n >= 3:
                     c.sample({"scenario": s.id, "kind": s.kind, "workers": s.n, "tasks": s.submitted, "max_concurrent": s.max_running, "perturbation_seed": s.pseed, "first_events": [(e[2], e[3], e[4]) for e in sorted(s.events)[:14]]})
             if lane == "tsan":
@@ -150,11 +154,11 @@ def miri(c, configs, seeds):
 
 
 def run(c):
-    c.rule = ("pool sizes 1..8, task counts 0..4N, behaviours instant / rendezvous of min(N,T) / one long + 3N instant; seeded perturbation (nothing / yield / spin / 50-500 us sleep) at the five cfg(rws_verif) hook points "
+    c.rule = ("pool sizes 1..8, task counts 0..4N, behaviours instant / rendezvous of min(N,T) / one long + 3N instant / tasks that panic with 12 kinds of payload (str, long, multi-byte at every alignment, control characters, non-string, empty) followed by a rendezvous; seeded perturbation (nothing / yield / spin / 50-500 us sleep) at the five cfg(rws_verif) hook points "
               "(Submit, BeforeLock, Locked, Received, Finished); offline checker over the sequence-numbered event log: exactly-once, conservation, per-worker automaton, lock discipline, rendezvous, slow-task isolation, census; "
               "the same small workloads under Miri's randomised scheduler (deadlock / data-race / UB detection, no clocks). Class = interleaving signature (event sequence projected on (worker, point)); non-trivial = N >= 2 and >= 2 tasks overlapped.")
     c.assumptions += ["native no-progress watchdog: 10 s without any event on workloads that normally finish in < 50 ms", "Miri explores the seeds it is given, not all schedules"]
-    for cat in ("N = 1", "N >= 4", "a rendezvous of N", "a slow-task run", ">= 2 overlapping tasks"):
+    for cat in ("N = 1", "N >= 4", "a rendezvous of N", "a slow-task run", ">= 2 overlapping tasks", "a run of tasks that panic with every payload kind"):
         c.need(cat)
     native(c, "rel", 1500 if c.quick else 150000)
     if c.quick:
